@@ -30,7 +30,8 @@ pub enum Op {
     /// get_mut + write a fresh value
     Mut { k: u64 },
     Ttl { k: u64 },
-    /// get, keep the guard, let `ms` of virtual time pass, then read ValueRef::ttl() through the guard
+    /// get, keep the guard while `ms` of virtual time pass and the background tasks run until they
+    /// are idle or wait for the guard, then read ValueRef::ttl() through the guard
     GetHold { k: u64, ms: u64 },
     Clear,
     Wait,
@@ -562,14 +563,18 @@ impl H {
     /// get, hold the guard while `ms` of virtual time pass, then ask the guard for its TTL
     pub fn get_hold(&self, k: u64, ms: u64) -> Res {
         match self {
+            // (the background tasks run while the guard is held: a sweep that needs this shard
+            // waits for the guard, it does not skip the entry)
             H::S(x) => {
                 let g = x.get(&k);
                 rt::advance(Duration::from_millis(ms));
+                rt::settle();
                 Res::Val(g.map(|r| (*r.value(), Some(ttl_ns(r.ttl())))))
             }
             H::A(x) => {
                 let g = b(x.get(&k));
                 rt::advance(Duration::from_millis(ms));
+                rt::settle();
                 Res::Val(g.map(|r| (*r.value(), Some(ttl_ns(r.ttl())))))
             }
         }
